@@ -1,6 +1,8 @@
 //! Conformance runner: drives the real regress crate with the cases the TLA+ specification
 //! enumerates and records what it did, for TLC to judge.
 mod ast;
+mod escape;
+mod replace;
 mod sem;
 
 fn main() {
@@ -14,6 +16,8 @@ fn main() {
     let rest = &args[2..];
     let code = match args[1].as_str() {
         "sem" => sem::main(rest),
+        "replace" => replace::main(rest),
+        "escape" => escape::main(rest),
         other => {
             eprintln!("unknown command {}", other);
             2
